@@ -2,6 +2,8 @@ import BlackIt.Model.Samplers
 import BlackIt.Properties.C17
 import BlackIt.Properties.C12
 import BlackIt.Properties.C15
+import BlackIt.Properties.C13
+import BlackIt.Lemmas.Pso
 set_option linter.unusedSectionVars false
 set_option linter.unusedSimpArgs false
 set_option linter.unusedVariables false
@@ -144,6 +146,42 @@ theorem onGrid_within_bounds (tol lo hi p x : α) (hp : 0 < p) (hx : x ∈ grid 
   (grid_last tol lo hi p hp).1 x hx
 
 end Bounds
+
+/-! ## before snapping: the raw proposals of the quasi-random samplers already lie within the declared bounds
+
+`HaltonSampler.sample_batch` and `RSequenceSampler.sample_batch` compute `p_bounds[0] + unit_cube_points * (p_bounds[1] - p_bounds[0])`
+(the same expression as the swarm and CORS, `BlackIt.Pso.scale` / `BlackIt.Cors.cubeToBox`) on points of the unit cube. -/
+section RawInBounds
+open BlackIt.Halton
+variable {α : Type} [Field α] [LinearOrder α] [IsStrictOrderedRing α]
+
+/-- every Halton point, scaled, lies within the bounds — for every index, every list of bases ≥ 2 and all bounds `lo ≤ hi` -/
+theorem halton_raw_within_bounds (bases : List Nat) (hb : ∀ b ∈ bases, 2 ≤ b) (lo hi : List α)
+    (hbnd : ∀ b ∈ lo.zip hi, b.1 ≤ b.2) (n j : Nat) (v : α)
+    (hv : (List.zipWith (fun x (b : α × α) => b.1 + x * (b.2 - b.1)) (haltonPoint (Nat.cast : Nat → α) bases n) (lo.zip hi))[j]? = some v) :
+    ∃ b, (lo.zip hi)[j]? = some b ∧ b.1 ≤ v ∧ v ≤ b.2 := by
+  refine BlackIt.Pso.zipWith_scale_between _ _ ?_ hbnd j v hv
+  intro y hy
+  unfold haltonPoint at hy
+  rw [List.mem_map] at hy
+  obtain ⟨b, hbm, rfl⟩ := hy
+  have := radicalInverse_range (α := α) b (hb b hbm) n
+  exact ⟨this.1, le_of_lt this.2⟩
+
+/-- every R-sequence point, scaled, lies within the bounds — for every offset, step vector and index -/
+theorem rseq_raw_within_bounds [FloorRing α] (start : α) (alphas : List α) (lo hi : List α)
+    (hbnd : ∀ b ∈ lo.zip hi, b.1 ≤ b.2) (n j : Nat) (v : α)
+    (hv : (List.zipWith (fun x (b : α × α) => b.1 + x * (b.2 - b.1)) (rPoint (Nat.cast : Nat → α) Int.fract start alphas n) (lo.zip hi))[j]? = some v) :
+    ∃ b, (lo.zip hi)[j]? = some b ∧ b.1 ≤ v ∧ v ≤ b.2 := by
+  refine BlackIt.Pso.zipWith_scale_between _ _ ?_ hbnd j v hv
+  intro y hy
+  unfold rPoint at hy
+  rw [List.mem_map] at hy
+  obtain ⟨a, _, rfl⟩ := hy
+  have := rCoord_range (α := α) start a n
+  exact ⟨this.1, le_of_lt this.2⟩
+
+end RawInBounds
 
 /-! ## the defect that was repaired in `BestBatchSampler`: clipping alone does not land on the grid -/
 section BestBatch
